@@ -5,26 +5,25 @@ import CklVerif.Lemmas.C20EvalNatives
 
   `P` is the set of allowed positions.  `PAll P ld fuel` says that every function of the evaluator's
   mutual block, run at fuel `fuel` on ASTs and positions from `P` in a state whose stored ASTs have
-  their positions in `P`, ends in such a state, and that an error outcome carries a position from `P`
-  and a stack trace whose entries carry positions from `P`.
+  their positions in `P`, ends in such a state, that a value outcome carries positions from `P` (control
+  values), and that an error outcome carries a position from `P` and a stack trace whose entries carry
+  positions from `P`.
 -/
 namespace Ckl
+attribute [local irreducible] ValsOK DictOK PairsOK
 set_option linter.unusedSectionVars false
 set_option linter.unusedVariables false
 
 /-- the messages of the errors that the model raises at the default position `{}` (Python: an error
-    constructed without position).  Exactly four sites:
+    constructed without position).  Exactly two kinds, at three sites:
     * `Environment.set` on a name that is not defined — reached from `NodeAssign` (`eval … (.assign …)`) and
       from `NodeAssignDestructuring` (`assignAll`): `"<name> is not defined"`;
-    * `callFn`: a `break` / `continue` value reaches the end of a function body:
-      `"break outside of a loop"`, `"continue outside of a loop"`;
     * `bind_native` of an unknown name: `"Unknown native <name>"`. -/
 def DefaultMsg (msg : String) : Prop :=
-  (∃ x : String, msg = x ++ " is not defined") ∨ msg = "break outside of a loop" ∨
-  msg = "continue outside of a loop" ∨ ∃ nm : String, msg = "Unknown native " ++ nm
+  (∃ x : String, msg = x ++ " is not defined") ∨ ∃ nm : String, msg = "Unknown native " ++ nm
 
 /-- the error predicate of the evaluator invariant: the position is in `P` — or it is the default
-    position `{}` and the message is one of the four `DefaultMsg` — and every trace entry is in `P` -/
+    position `{}` and the message is one of the `DefaultMsg` — and every trace entry is in `P` -/
 structure EP (P : Pos → Prop) (msg : String) (p : Pos) (t : List (String × Pos)) : Prop where
   pos : P p ∨ (p = {} ∧ DefaultMsg msg)
   trace : ∀ e ∈ t, P e.2
@@ -42,12 +41,10 @@ theorem EP.snoc {P : Pos → Prop} {msg : String} {p q : Pos} {t : List (String 
   · exact h.trace e h1
   · cases List.mem_singleton.mp h1; exact hq
 
-/-- one of the four default messages, syntactically -/
+/-- one of the default messages, syntactically -/
 macro "dmsg" : tactic => `(tactic| first
   | exact Or.inl ⟨_, rfl⟩
-  | exact Or.inr (Or.inl rfl)
-  | exact Or.inr (Or.inr (Or.inl rfl))
-  | exact Or.inr (Or.inr (Or.inr ⟨_, rfl⟩)))
+  | exact Or.inr ⟨_, rfl⟩)
 
 macro_rules | `(tactic| eok) => `(tactic| first
   | (apply EP.nil; assumption)
@@ -56,13 +53,13 @@ macro_rules | `(tactic| eok) => `(tactic| first
   | (intro _; apply EP.dflt; dmsg))
 
 /-- the evaluator invariant for one computation -/
-abbrev POK (P : Pos → Prop) {α : Type} (m : EvalM α) : Prop := PosOK (EP P) (StOK P) m
+abbrev POK (P : Pos → Prop) {α : Type} [VC α] (m : EvalM α) : Prop := PosOK (EP P) P m
 
 /-- what is assumed about the environment of the evaluation: the module ASTs of the loader have allowed
     positions, and the interpretation of the unmodelled built-ins respects the invariant -/
 structure Ctx (P : Pos → Prop) (ld : Loader) : Prop where
   loader : ∀ file ast, ld.find file = some (.ok ast) → NodeOK P ast
-  native : ∀ name bound, POK P (ld.nativeSem name bound)
+  native : ∀ name bound, DictOK P bound → POK P (ld.nativeSem name bound)
 
 structure PAll (P : Pos → Prop) (ld : Loader) (fuel : Nat) : Prop where
   eval : ∀ env n, NodeOK P n → POK P (eval ld fuel env n)
@@ -73,35 +70,38 @@ structure PAll (P : Pos → Prop) (ld : Loader) (fuel : Nat) : Prop where
   evalSeq : ∀ env ns, NodesOK P ns → POK P (evalSeq ld fuel env ns)
   evalItems : ∀ env ns pos, NodesOK P ns → P pos → POK P (evalItems ld fuel env ns pos)
   evalPairs : ∀ env ks vs, NodesOK P ks → NodesOK P vs → POK P (evalPairs ld fuel env ks vs)
-  evalBody : ∀ env ns last, NodesOK P ns → POK P (evalBody ld fuel env ns last)
+  evalBody : ∀ env ns last, NodesOK P ns → ValOK P last → POK P (evalBody ld fuel env ns last)
   evalFinally : ∀ env ns, NodesOK P ns → POK P (evalFinally ld fuel env ns)
   tryHandlers : ∀ env cs hs v msg p t, NodesOK P cs → NodesOK P hs → EP P msg p t →
     POK P (tryHandlers ld fuel env cs hs v msg p t)
-  invoke : ∀ fn pre names args env pos, NodesOK P args → P pos → POK P (invoke ld fuel fn pre names args env pos)
+  invoke : ∀ fn pre names args env pos, NodesOK P args → P pos → ValsOK P pre → POK P (invoke ld fuel fn pre names args env pos)
   evalArgs : ∀ env names args pos, NodesOK P args → P pos → POK P (evalArgs ld fuel env names args pos)
-  callFn : ∀ fn bound env pos, P pos → POK P (callFn ld fuel fn bound env pos)
-  bindParams : ∀ lenv ps ds bound pos, NodesOK P ds → P pos → POK P (bindParams ld fuel lenv ps ds bound pos)
+  callFn : ∀ fn bound env pos, P pos → DictOK P bound → POK P (callFn ld fuel fn bound env pos)
+  bindParams : ∀ lenv ps ds bound pos, NodesOK P ds → P pos → DictOK P bound → POK P (bindParams ld fuel lenv ps ds bound pos)
   evalFor : ∀ env ids e body what pos, NodeOK P e → NodeOK P body → P pos →
     POK P (evalFor ld fuel env ids e body what pos)
-  forItems : ∀ env ids xs body result pos, NodeOK P body → P pos →
+  forItems : ∀ env ids xs body result pos, NodeOK P body → P pos → ValsOK P xs → ValOK P result →
     POK P (forItems ld fuel env ids xs body result pos)
-  forListLive : ∀ env ids a i body result pos, NodeOK P body → P pos →
+  forListLive : ∀ env ids a i body result pos, NodeOK P body → P pos → ValOK P result →
     POK P (forListLive ld fuel env ids a i body result pos)
-  forString : ∀ env x cs body result, NodeOK P body → POK P (forString ld fuel env x cs body result)
+  forString : ∀ env x cs body result, NodeOK P body → ValOK P result → POK P (forString ld fuel env x cs body result)
   whileLoop : ∀ env c body pos, NodeOK P c → NodeOK P body → P pos → POK P (whileLoop ld fuel env c body pos)
   comprStep : ∀ lenv kind ve ke cond pos, NodeOK P ve → NodeOK P ke → NodeOK P cond → P pos →
     POK P (comprStep ld fuel lenv kind ve ke cond pos)
   comprLoop : ∀ lenv kind ve ke cond pos l acc, NodeOK P ve → NodeOK P ke → NodeOK P cond → P pos →
+    VC.ok P l → PairsOK P acc →
     POK P (comprLoop ld fuel lenv kind ve ke cond pos l acc)
   comprProduct : ∀ lenv kind ve ke cond pos x1 vs x2 ws acc, NodeOK P ve → NodeOK P ke → NodeOK P cond → P pos →
+    ValsOK P vs → ValsOK P ws → PairsOK P acc →
     POK P (comprProduct ld fuel lenv kind ve ke cond pos x1 vs x2 ws acc)
   comprParallel : ∀ lenv kind ve ke cond pos x1 vs x2 ws acc, NodeOK P ve → NodeOK P ke → NodeOK P cond → P pos →
+    ValsOK P vs → ValsOK P ws → PairsOK P acc →
     POK P (comprParallel ld fuel lenv kind ve ke cond pos x1 vs x2 ws acc)
-  nativeSorted : ∀ bound env pos, P pos → POK P (nativeSorted ld fuel bound env pos)
-  sortedOuter : ∀ cmp key senv pos arr i, P pos → POK P (sortedOuter ld fuel cmp key senv pos arr i)
-  sortedInner : ∀ cmp key senv pos arr v j, P pos → POK P (sortedInner ld fuel cmp key senv pos arr v j)
-  call1 : ∀ f x env pos, P pos → POK P (call1 ld fuel f x env pos)
-  call2 : ∀ f x y env pos, P pos → POK P (call2 ld fuel f x y env pos)
+  nativeSorted : ∀ bound env pos, P pos → DictOK P bound → POK P (nativeSorted ld fuel bound env pos)
+  sortedOuter : ∀ cmp key senv pos arr i, P pos → ValsOK P arr.toList → POK P (sortedOuter ld fuel cmp key senv pos arr i)
+  sortedInner : ∀ cmp key senv pos arr v j, P pos → ValsOK P arr.toList → ValOK P v → POK P (sortedInner ld fuel cmp key senv pos arr v j)
+  call1 : ∀ f x env pos, P pos → ValOK P x → POK P (call1 ld fuel f x env pos)
+  call2 : ∀ f x y env pos, P pos → ValOK P x → ValOK P y → POK P (call2 ld fuel f x y env pos)
   evalRequire : ∀ env spec name unq syms pos, NodeOK P spec → P pos →
     POK P (evalRequire ld fuel env spec name unq syms pos)
   loadModule : ∀ env ident modulefile pos, P pos → POK P (loadModule ld fuel env ident modulefile pos)
@@ -131,7 +131,8 @@ macro "nodeok" : tactic => `(tactic| first
   | assumption
   | exact trivial
   | (apply NodeOK.of_spread; assumption)
-  | (apply EP.nil; assumption))
+  | (apply EP.nil; assumption)
+  | vok)
 
 /-- use the induction hypothesis (or another fact in the context) for the computation at hand -/
 macro "posok_ih" : tactic => `(tactic| (apply_assumption (exfalso := false) (symm := false) <;> nodeok))
@@ -178,8 +179,8 @@ theorem evalPairs_step (ctx : Ctx P ld) (ih : PAll P ld fuel) :
   cases ks <;> cases vs <;> simp only [NodesOK] at hks hvs <;> split_ands <;> unfold Ckl.evalPairs <;> posok!
 
 theorem evalBody_step (ctx : Ctx P ld) (ih : PAll P ld fuel) :
-    ∀ env ns last, NodesOK P ns → POK P (evalBody ld (fuel+1) env ns last) := by
-  intro env ns last hns
+    ∀ env ns last, NodesOK P ns → ValOK P last → POK P (evalBody ld (fuel+1) env ns last) := by
+  intro env ns last hns hlast
   ih_intro ih ctx
   cases ns <;> simp only [NodesOK] at hns <;> split_ands <;> unfold Ckl.evalBody <;> posok!
 
@@ -221,11 +222,11 @@ theorem invoke_wrap (fn : RVal) (bound : List (String × RVal)) (env : EnvId) {p
     | unsupported w => exact this
 
 theorem invoke_step (ctx : Ctx P ld) (ih : PAll P ld fuel) :
-    ∀ fn pre names args env pos, NodesOK P args → P pos →
+    ∀ fn pre names args env pos, NodesOK P args → P pos → ValsOK P pre →
       POK P (invoke ld (fuel+1) fn pre names args env pos) := by
-  intro fn pre names args env pos hargs hp
+  intro fn pre names args env pos hargs hp hpre
   ih_intro ih ctx
-  have hw := fun bound => invoke_wrap fn bound env hp (ih.callFn fn bound env pos hp)
+  have hw := fun bound (hb : DictOK P bound) => invoke_wrap fn bound env hp (ih.callFn fn bound env pos hp hb)
   unfold Ckl.invoke
   posok!
 
@@ -236,8 +237,9 @@ theorem evalArgs_step (ctx : Ctx P ld) (ih : PAll P ld fuel) :
   cases names <;> cases args <;> simp only [NodesOK] at hargs <;> split_ands <;> unfold Ckl.evalArgs <;> posok!
 
 theorem bindParams_step (ctx : Ctx P ld) (ih : PAll P ld fuel) :
-    ∀ lenv ps ds bound pos, NodesOK P ds → P pos → POK P (bindParams ld (fuel+1) lenv ps ds bound pos) := by
-  intro lenv ps ds bound pos hds hp
+    ∀ lenv ps ds bound pos, NodesOK P ds → P pos → DictOK P bound →
+      POK P (bindParams ld (fuel+1) lenv ps ds bound pos) := by
+  intro lenv ps ds bound pos hds hp hbound
   ih_intro ih ctx
   cases ps <;> cases ds <;> simp only [NodesOK] at hds <;> split_ands <;> unfold Ckl.bindParams <;> posok!
 
@@ -250,23 +252,24 @@ theorem evalFor_step (ctx : Ctx P ld) (ih : PAll P ld fuel) :
   posok!
 
 theorem forItems_step (ctx : Ctx P ld) (ih : PAll P ld fuel) :
-    ∀ env ids xs body result pos, NodeOK P body → P pos →
+    ∀ env ids xs body result pos, NodeOK P body → P pos → ValsOK P xs → ValOK P result →
       POK P (forItems ld (fuel+1) env ids xs body result pos) := by
-  intro env ids xs body result pos hb hp
+  intro env ids xs body result pos hb hp hxs hres
   ih_intro ih ctx
   cases xs <;> unfold Ckl.forItems <;> posok!
 
 theorem forListLive_step (ctx : Ctx P ld) (ih : PAll P ld fuel) :
-    ∀ env ids a i body result pos, NodeOK P body → P pos →
+    ∀ env ids a i body result pos, NodeOK P body → P pos → ValOK P result →
       POK P (forListLive ld (fuel+1) env ids a i body result pos) := by
-  intro env ids a i body result pos hb hp
+  intro env ids a i body result pos hb hp hres
   ih_intro ih ctx
   unfold Ckl.forListLive
   posok!
 
 theorem forString_step (ctx : Ctx P ld) (ih : PAll P ld fuel) :
-    ∀ env x cs body result, NodeOK P body → POK P (forString ld (fuel+1) env x cs body result) := by
-  intro env x cs body result hb
+    ∀ env x cs body result, NodeOK P body → ValOK P result →
+      POK P (forString ld (fuel+1) env x cs body result) := by
+  intro env x cs body result hb hres
   ih_intro ih ctx
   cases cs <;> unfold Ckl.forString <;> posok!
 
@@ -287,22 +290,25 @@ theorem comprStep_step (ctx : Ctx P ld) (ih : PAll P ld fuel) :
 
 theorem comprLoop_step (ctx : Ctx P ld) (ih : PAll P ld fuel) :
     ∀ lenv kind ve ke cond pos l acc, NodeOK P ve → NodeOK P ke → NodeOK P cond → P pos →
+      VC.ok P l → PairsOK P acc →
       POK P (comprLoop ld (fuel+1) lenv kind ve ke cond pos l acc) := by
-  intro lenv kind ve ke cond pos l acc hve hke hcond hp
+  intro lenv kind ve ke cond pos l acc hve hke hcond hp hl hacc
   ih_intro ih ctx
   rcases l with _ | ⟨⟨x, _ | ⟨v, vs⟩⟩, _ | ⟨y, l⟩⟩ <;> unfold Ckl.comprLoop <;> posok!
 
 theorem comprProduct_step (ctx : Ctx P ld) (ih : PAll P ld fuel) :
     ∀ lenv kind ve ke cond pos x1 vs x2 ws acc, NodeOK P ve → NodeOK P ke → NodeOK P cond → P pos →
+      ValsOK P vs → ValsOK P ws → PairsOK P acc →
       POK P (comprProduct ld (fuel+1) lenv kind ve ke cond pos x1 vs x2 ws acc) := by
-  intro lenv kind ve ke cond pos x1 vs x2 ws acc hve hke hcond hp
+  intro lenv kind ve ke cond pos x1 vs x2 ws acc hve hke hcond hp hvs hws hacc
   ih_intro ih ctx
   cases vs <;> unfold Ckl.comprProduct <;> posok!
 
 theorem comprParallel_step (ctx : Ctx P ld) (ih : PAll P ld fuel) :
     ∀ lenv kind ve ke cond pos x1 vs x2 ws acc, NodeOK P ve → NodeOK P ke → NodeOK P cond → P pos →
+      ValsOK P vs → ValsOK P ws → PairsOK P acc →
       POK P (comprParallel ld (fuel+1) lenv kind ve ke cond pos x1 vs x2 ws acc) := by
-  intro lenv kind ve ke cond pos x1 vs x2 ws acc hve hke hcond hp
+  intro lenv kind ve ke cond pos x1 vs x2 ws acc hve hke hcond hp hvs hws hacc
   ih_intro ih ctx
   cases vs <;> cases ws <;> unfold Ckl.comprParallel <;> posok!
 
